@@ -1,6 +1,7 @@
 """C19 — Pareto filter, dominance predicate, distance-to-preference-vector transformations."""
 import contextlib
 import itertools
+import json
 import math
 from fractions import Fraction
 
@@ -30,9 +31,11 @@ def _fr(x):
     return Fraction(x)
 
 
-def _arr(rows, dtype="float64", layout="C"):
+def _arr(rows, dtype="float64", layout="C", ncol=None):
     """matrix of exact values -> ndarray of the requested dtype / memory layout (same contents)"""
     n = len(rows)
+    if n == 0:
+        return numpy.zeros((0, ncol or 0), dtype=dtype)
     if dtype.startswith("int"):
         a = numpy.array([[int(Fraction(v)) for v in r] for r in rows], dtype=dtype).reshape(n, -1)
     else:
@@ -88,7 +91,15 @@ class C19(Prop):
             "non-dyadic preference vectors, constant objectives, ranges of 2^-40 next to 2^40, fronts at a large level, "
             "single-objective fronts, fronts collinear with the preference line = distance exactly 0, > 1024 points), the "
             "three copies run on the same front and compared with each other, translation pairs, in-place edit histories; "
-            "weighted-sum / sum transformations (correspondence only).  Non-trivial = "
+            "weighted-sum / sum transformations (correspondence only).  Round 4: objectives on very different scales inside "
+            "one point (2^60 next to 1: totals coincide in binary64) with ties on the large objective, many exact ties in the "
+            "first objective, ranges / differences of 2^-60 .. 2^-1070, the empty point set, weights as column / row matrix / "
+            "strided view (square matrices included), keyword call forms, Boolean / integer nature of the two result forms; "
+            "dominance between vectors of 9-40 objectives differing in the last one, strided / Fortran-row objective vectors, "
+            "histories on one pair of objective buffers; the filter with all objectives minimised against the pairwise "
+            "dominance predicate; sign vectors with unequal magnitudes or a zero, preference vectors scaled by 2^+-400 "
+            "and by 2^520 / 2^-600 / 1e170 / 1e-200 (L.L not a binary64 number: regression cases of D190, fixed c276d45e), "
+            "float32 fronts.  Non-trivial = "
             "pareto case with >= 2 distinct points and at least one dominated or duplicated point, "
             "dominates case with differing objective vectors, dist case with >= 2 points and >= 2 objectives, "
             "dist_pair case with >= 2 points, >= 2 objectives and a non-zero translation")
@@ -98,7 +109,9 @@ class C19(Prop):
     REL = Fraction(1, 10 ** 9)
     ABS = Fraction(1, 10 ** 12)
     ABS_ZERO = Fraction(1, 10 ** 18)     # fronts collinear with the line: |d| <= 1e-9
-    ASSUMPTIONS = ["inputs are integers / dyadic rationals so that the float computation is exact up to 1e-9 "
+    ASSUMPTIONS = ["every generated number is a binary64 number and every weighted value x*w is one too (checked by the "
+                   "generator's self-test `_assert_exact` / `_safe_wt`): model and implementation see the same input",
+                   "inputs are integers / dyadic rationals so that the float computation is exact up to 1e-9 "
                    "(weights times objective values are exactly representable, or order-preserving for the rescaled weights)",
                    "NaN output of the unguarded transformation is modelled as `none`"]
 
@@ -107,6 +120,10 @@ class C19(Prop):
     CVS = [0, 0, -1, Fraction(1, 2), 1, 2, 1e-9, 5e-9, 1e-8, 1e-12, 1e-5, 1e-300, 5e-324, -1e-9, -1e-300, 1e300,
            2.0 ** -30, 1 + 2.0 ** -40, 25000, 25000.0001]
     LINES_ND = [0.7, 0.35, 0.1, 0.25, 0.75, 1.0 / 3.0, 2.5]
+    # (level, step) pairs with step >= ulp(level): level + k * step is a binary64 number for small k
+    MIXED = [(2 ** 60, 256), (-(2 ** 52), 1), (1234567, Fraction(1, 2 ** 30)), (Fraction(1, 8), Fraction(1, 2 ** 36)),
+             (0, 1), (-800000000, Fraction(1, 2 ** 20)), (3 * 10 ** 15, Fraction(1, 2))]
+    SIGN_MAG = [1, 1, 1, 2, Fraction(1, 2), 3, Fraction(1, 4)]
 
     # ------------------------------------------------------------------ corpus
     def corpus(self):
@@ -117,7 +134,34 @@ class C19(Prop):
         # 1030 points on 26 anti-diagonals, only the top one (40 points) efficient
         b1030 = [[i, 40 - i - d] for d in range(26) for i in range(40)][:1030]; rr.shuffle(b1030)
         d1030 = [[(i * 37) % 1031, (i * i) % 97, 5] for i in range(1030)]
-        return [
+        # plain histories first: the process is still clean when they run, so a defect that lives in state carried
+        # from one call to the next (a memo, a reused buffer, an overwritten argument) is reported with a case that
+        # contains its own history and replays in a fresh process.  The data are deliberately unremarkable (no ties,
+        # one magnitude, float64, C order): defects of single calls are left to the smaller cases below.
+        M = [[1, 5], [3, 2], [0, 0], [4, 4]]
+        M2 = [[1, 5], [3, 2], [5, 6], [4, 4]]
+        hist = [{"kind": "dist_seq", "steps": [
+                    {"variant": v, "mat": M, "sign": [1, 1], "line": [1, 2]},
+                    {"variant": v, "mat": M, "sign": [1, 1], "line": [2, 1]},
+                    {"variant": v, "mat": M2, "sign": [1, 1], "line": [2, 1]},
+                    {"variant": v, "mat": M2, "sign": [1, -1], "line": [2, 1]},
+                    {"variant": v, "mat": M2, "sign": [1, -1], "line": [1, 3]},     # a minimised objective, same array again
+                    {"variant": v, "mat": M, "sign": [1, -1], "line": [1, 3]}]}
+                for v in VARIANTS]
+        hist.append({"kind": "pareto_seq", "fdtype": "float64", "steps": [
+            {"fmat": M, "wt": [1, 1], "order": "mask_first"},
+            {"fmat": M, "wt": [1, -1], "order": "idx_first"},
+            {"fmat": M2, "wt": [1, -1], "order": "mask_only"},
+            {"fmat": M2, "wt": [1, 1], "order": "idx_only"},
+            {"fmat": M, "wt": [1, 1], "order": "mask_first"}]})
+        hist.append({"kind": "dominates_seq", "steps": [
+            {"obj1": [1, 5], "cv1": 0, "obj2": [3, 6], "cv2": 0},
+            {"obj1": [4, 5], "cv1": 0, "obj2": [3, 6], "cv2": 0},
+            {"obj1": [4, 5], "cv1": 0, "obj2": [3, 6], "cv2": 0, "swap": True},
+            {"obj1": [4, 7], "cv1": 0, "obj2": [3, 6], "cv2": 0, "swap": True},
+            {"obj1": [4, 7], "cv1": 2, "obj2": [3, 6], "cv2": 1},
+            {"obj1": [4, 7], "cv1": 2, "obj2": [3, 6], "cv2": 3}]})
+        return hist + [
             {"kind": "pareto", "fmat": [[1, 2], [2, 1], [1, 1], [2, 1], ["1/2", 3]], "wt": [1, 1]},
             {"kind": "pareto", "fmat": [[1, 1], [1, 1], [1, 1]], "wt": [1, -1]},
             {"kind": "pareto", "fmat": [[3]], "wt": [2]},
@@ -178,7 +222,10 @@ class C19(Prop):
               for v in VARIANTS],
             *[{"kind": "dist", "variant": v, "mat": [[3, 3, 5], [1, 2, 7], [2, 1, 6], [1, 1, 5]], "sign": [1, 1, -1],
                "line": canon.enc(l)} for v in VARIANTS for l in ([0.7, 0.7, 0.0], [0.0, 0.35, 0.0], [0.1, 0.1, 0.1])],
-            {"kind": "dist", "variant": "prob", "mat": d1030, "sign": [1, -1, 1], "line": [1, 2, 1]},
+            {"kind": "dist3", "mat": d1030, "sign": [1, -1, 1], "line": [1, 2, 1]},
+            # every copy: Fortran-ordered front, extra keyword / positional-plus-keyword call forms
+            *[{"kind": "dist", "variant": v, "mat": [[3, 1, 5], [1, 2, 7], [2, 3, 6], [0, 0, 4]], "sign": [1, -1, 1],
+               "line": [1, 2, 3], "layout": "F", "call": c} for v in VARIANTS for c in ("kw_extra", "pos_extra")],
             {"kind": "dist3", "mat": [[1, 2, 0], [2, 1, 0], [0, 0, 0], [2, 2, 0]], "sign": [1, -1, 1], "line": [1, 2, 3]},
             {"kind": "dist", "variant": "protocol", "mat": [[1, 2, 0], [2, 1, 0], [0, 0, 0], [3, 2, 0]], "sign": [1, 1, 1],
              "line": [1, 1, 1]},
@@ -206,6 +253,64 @@ class C19(Prop):
             {"kind": "dominates", "obj1": [1, 2], "cv1": 0, "obj2": ["1073741825/1073741824", 2], "cv2": 0},
             {"kind": "dominates", "obj1": [], "cv1": 0, "obj2": [], "cv2": 0},
             {"kind": "dominates", "obj1": [1, 2], "cv1": 0, "obj2": [1, 3], "cv2": -1, "odtype": "int64", "cvform": "int"},
+            # ---- round 4
+            # no point at all
+            {"kind": "pareto", "fmat": [], "wt": [1, -1]},
+            # objectives on very different scales inside one point; the dominated point listed first, tie on the large one
+            {"kind": "pareto", "fmat": [[2 ** 60, 2], [2 ** 60, 3], [2 ** 60 + 256, 0]], "wt": [1, 1]},
+            {"kind": "pareto", "fmat": [[3, -(2 ** 52)], [2, -(2 ** 52)], [1, -(2 ** 52) + 1]], "wt": [-1, 1], "order": "idx_first"},
+            # exact ties in the FIRST objective, the dominated point before its dominator
+            {"kind": "pareto", "fmat": [[3, 1], [3, 2], [1, 3]], "wt": [1, 1]},
+            {"kind": "pareto", "fmat": [[2, 5], [2, 4], [4, 1], [2, 7]], "wt": [-1, -1]},
+            {"kind": "pareto_perm", "fmat": [[5, 1, 1], [5, 1, 2], [5, 2, 0], [1, 9, 9]], "wt": [1, 1, 1], "perm": [3, 2, 1, 0]},
+            # weights handed over as a column / row matrix / strided view; as many points as objectives
+            {"kind": "pareto", "fmat": [[1, 2], [2, 1]], "wt": [1, -1], "wform": "col"},
+            {"kind": "pareto", "fmat": [[1, 2, 0], [2, 1, 0], [2, 2, 0]], "wt": [1, -1, 2], "wform": "col", "order": "idx_first"},
+            {"kind": "pareto", "fmat": [[1, 2], [2, 1], [0, 0]], "wt": [2, "1/2"], "wform": "row"},
+            {"kind": "pareto", "fmat": [[1, 2], [2, 1], [0, 0]], "wt": [-1, "1/2"], "wform": "strided"},
+            # dominance between vectors whose objectives live on very different scales (their totals coincide in binary64)
+            {"kind": "dominates", "obj1": [-3 * 10 ** 15, 1], "cv1": 0, "obj2": [-3 * 10 ** 15, "5/4"], "cv2": 0},
+            {"kind": "dominates", "obj1": [-3 * 10 ** 15, 1], "cv1": -1, "obj2": [-3 * 10 ** 15, "5/4"], "cv2": -3},
+            {"kind": "dominates", "obj1": [2 ** 60, 1, 0], "cv1": 0, "obj2": [2 ** 60, 1, "1/1073741824"], "cv2": 0},
+            {"kind": "dominates", "obj1": [2 ** 60, 1, "1/1073741824"], "cv1": 0, "obj2": [2 ** 60, 1, 0], "cv2": 0},
+            {"kind": "dominates", "obj1": [2 ** 60, 2, 0], "cv1": 0, "obj2": [2 ** 60, 1, 1], "cv2": 0},
+            {"kind": "dominates", "obj1": [-1234567, "1/8"], "cv1": 0, "obj2": [-1234567, canon.enc(0.125 + 1e-11)], "cv2": 0},
+            # differences so small that their squares underflow (a norm of the difference is 0), incl. subnormal ones
+            {"kind": "dominates", "obj1": [0, 0], "cv1": 0, "obj2": [0, canon.enc(Fraction(1, 2 ** 600))], "cv2": 0},
+            {"kind": "dominates", "obj1": [1, canon.enc(Fraction(1, 2 ** 1070))], "cv1": 0,
+             "obj2": [1, canon.enc(Fraction(3, 2 ** 1070))], "cv2": -1},
+            {"kind": "dominates", "obj1": [1, canon.enc(Fraction(3, 2 ** 1070))], "cv1": 0,
+             "obj2": [1, canon.enc(Fraction(1, 2 ** 1070))], "cv2": 0},
+            {"kind": "pareto", "fmat": [[1, canon.enc(Fraction(1, 2 ** 600))], [1, 0], [0, canon.enc(Fraction(1, 2 ** 599))]],
+             "wt": [1, 1]},
+            {"kind": "dominates", "obj1": [0] * 33, "cv1": 0, "obj2": [0] * 32 + [1], "cv2": 0},
+            {"kind": "dominates", "obj1": [1, 2, 3], "cv1": 0, "obj2": [1, 2, 4], "cv2": 0, "oform": "row_of_F"},
+            {"kind": "dominates", "obj1": [1, 2, 3], "cv1": 0, "obj2": [1, 3, 3], "cv2": 0, "oform": "strided"},
+            {"kind": "pareto", "fmat": [[1, 2], [2, 1], [1, 1]], "wt": [1, -1], "kw": "wt"},
+            {"kind": "pareto", "fmat": [[1, 2], [2, 1], [1, 1]], "wt": [1, 1], "kw": "all", "order": "idx_first"},
+            {"kind": "pareto_dom", "fmat": [[1, 2], [2, 2], [2, 1], [1, 2]], "cv": 0},
+            {"kind": "pareto_dom", "fmat": [[2 ** 60, 3], [2 ** 60, 2], [2 ** 60 + 256, 0]], "cv": -1},
+            {"kind": "dominates_seq", "steps": [
+                {"obj1": [1, 2], "cv1": 0, "obj2": [1, 3], "cv2": 0},
+                {"obj1": [1, 4], "cv1": 0, "obj2": [1, 3], "cv2": 0},
+                {"obj1": [1, 4], "cv1": 0, "obj2": [1, 3], "cv2": 0, "swap": True},
+                {"obj1": [1, 4], "cv1": 0, "obj2": [1, 3], "cv2": 1, "swap": True}]},
+            # the vector multiplying the front with unequal magnitudes / an ignored objective
+            *[{"kind": "dist", "variant": v, "mat": [[1, 2, 7], [2, 1, 5], [0, 0, 6], [3, 3, 6]], "sign": [2, "-1/2", 3],
+               "line": [1, 2, 1]} for v in VARIANTS],
+            {"kind": "dist3", "mat": [[1, 2], [2, 1], [0, 0], [3, 3]], "sign": [3, 0], "line": [1, 1]},
+            # very small / very large preference vectors whose squared norm is still a binary64 number
+            *[{"kind": "dist", "variant": v, "mat": [[1, 2], [2, 1], [0, 0], [3, 3]], "sign": [1, 1],
+               "line": canon.enc([Fraction(2) ** e, Fraction(2) ** (e + 1)])} for v in VARIANTS for e in (400, -400)],
+            # regression cases of D190 (repaired in c276d45e: the vector is normalised first): preference vectors whose
+            # squared norm over- / underflows binary64 -- must hold now
+            *[{"kind": "dist", "variant": v, "mat": [[1, 2], [2, 1], [0, 0], [3, 3]], "sign": [1, 1],
+               "line": canon.enc([Fraction(2) ** e, Fraction(2) ** (e + 1)])} for v in VARIANTS for e in (520, -600)],
+            # the inputs of the Lean witness C19.dist_extreme_preference_float_prerepair_counterexample (same defect)
+            *[{"kind": "dist", "variant": "transfn", "mat": [[1, 2], [2, 1], [0, 0], [3, 3]], "sign": [1, 1],
+               "line": canon.enc(l)} for l in ([1e-200, 2e-200], [1e170, 2e170])],
+            {"kind": "dist", "variant": "transfn", "mat": [[1, 2], [2, 1], [0, 0], [3, 3]], "sign": [1, 1],
+             "line": canon.enc([1e100, 2e100])},
             {"kind": "wsum", "fn": "dot", "mat": [[1, 2], [2, 1], ["1/2", 0]], "wt": [1, -2]},
             {"kind": "wsum", "fn": "sum1", "mat": [[1, 2], [2, 1], ["1/2", 0]]},
             {"kind": "wsum", "fn": "sum0", "mat": [[1, 2], [2, 1], ["1/2", 0]]},
@@ -215,7 +320,7 @@ class C19(Prop):
         ]
 
     # ------------------------------------------------------------------ generation
-    def _points(self, rng):
+    def _points(self, rng, mixed=True):
         npt = rng.choice([1, 2, 2, 3, 3, 4, 5, 6, 8, 10, 14])
         nobj = rng.choice([1, 2, 2, 3, 3, 4])
         hi = rng.choice([1, 2, 3, 5])
@@ -231,7 +336,8 @@ class C19(Prop):
             pts = [[Fraction(v, 2) for v in r] for r in pts]
         elif style < 0.58:                 # near-ties at a common level: level + k * 2^-e
             for j in range(nobj):
-                level, e = rng.choice([(0, 40), (1, 30), (25000, 20), (25000, 30), (2 ** 30, 1), (1, 40), (0, 30)])
+                level, e = rng.choice([(0, 40), (1, 30), (25000, 20), (25000, 30), (2 ** 30, 1), (1, 40), (0, 30),
+                                       (0, 60), (0, 300)])
                 for p in pts:
                     p[j] = level + Fraction(rng.randint(0, 3) - (1 if level else 0), 2 ** e)
         elif style < 0.64:                 # one objective tiny, one huge
@@ -239,6 +345,18 @@ class C19(Prop):
                 m = rng.choice([Fraction(1, 2 ** 40), 2 ** 40, 1])
                 for p in pts:
                     p[j] = p[j] * m
+        elif style < 0.72 and nobj >= 2 and mixed:
+            # objectives on very different scales inside ONE point (a sum over the objectives absorbs the small
+            # ones): level + k * step per objective, step >= ulp(level); ties on the large objective are frequent
+            cols = [rng.choice(self.MIXED) for _ in range(nobj)]
+            cols[rng.randrange(nobj)] = self.MIXED[0]
+            for j, (b, st) in enumerate(cols):
+                ks = [0, 0, 1] if b == self.MIXED[0][0] else [0, 1, 2, 3]
+                for p in pts:
+                    p[j] = b + st * rng.choice(ks)
+        elif style < 0.78 and nobj >= 2:   # many exact ties in the FIRST objective, the others spread out
+            for p in pts:
+                p[0] = rng.randint(0, 1)
         return pts, nobj
 
     @staticmethod
@@ -270,11 +388,29 @@ class C19(Prop):
             form["layout"] = rng.choice(["F", "strided", "rev"])
         return form
 
+    @staticmethod
+    def _products_exact(pts, wt):
+        """every weighted value `x * w` is a binary64 number (the float product the code forms is the exact one)"""
+        return all(Fraction(float(Fraction(v) * Fraction(w))) == Fraction(v) * Fraction(w) for r in pts for v, w in zip(r, wt))
+
+    def _safe_wt(self, pts, wt):
+        """weights whose products with the data are exact in binary64; otherwise their signs"""
+        if self._products_exact(pts, wt):
+            return wt
+        return [(-1 if Fraction(w) < 0 else (1 if Fraction(w) > 0 else 0)) for w in wt]
+
+    @staticmethod
+    def _wide(pts):
+        """values using (nearly) the whole significand: a non-dyadic rescaling of the weights may merge near-ties"""
+        return any(abs(Fraction(v)) >= 2 ** 40 or (Fraction(v) != 0 and Fraction(v).denominator >= 2 ** 34 and abs(Fraction(v)) >= 1)
+                   for r in pts for v in r)
+
     def _gen_pareto(self, rng):
         pts, nobj = self._points(rng)
         wt = [rng.choice(self.WTS) for _ in range(nobj)]
         if rng.random() < 0.04:
             wt[rng.randrange(nobj)] = 0
+        wt = self._safe_wt(pts, wt)
         case = {"kind": "pareto", "fmat": canon.enc(pts), "wt": canon.enc(wt)}
         case.update(self._matrix_form(rng, pts))
         if case.get("fdtype", "").startswith("int") and all(Fraction(w).denominator == 1 for w in wt) and rng.random() < 0.3:
@@ -283,8 +419,18 @@ class C19(Prop):
             case["order"] = "idx_first"
         if rng.random() < 0.12:
             case["flag"] = rng.choice(["np", "int"])
-        if rng.random() < 0.15 and "wdtype" not in case:
+        if rng.random() < 0.12:
+            case["kw"] = rng.choice(["wt", "all"])
+        if rng.random() < 0.15 and "wdtype" not in case and not self._wide(pts):
             case["scale"] = canon.enc([rng.choice(self.SCALES) for _ in range(nobj)])
+        if rng.random() < 0.15:
+            # the weights as a column / row matrix or a strided view (`wt.flatten()` accepts all of them)
+            case["wform"] = rng.choice(["col", "row", "strided"])
+            if case["wform"] == "col" and rng.random() < 0.5:
+                # as many points as objectives: a column of weights broadcasts silently against a square matrix
+                k = nobj
+                rows = case["fmat"]
+                case["fmat"] = (rows * k)[:k] if len(rows) < k else rows[:k]
         return case
 
     def _gen_big(self, rng, tier):
@@ -317,20 +463,27 @@ class C19(Prop):
                 if what < 0.6:         # edit some entries in place
                     for _ in range(rng.randint(1, 2)):
                         i, j = rng.randrange(npt), rng.randrange(nobj)
+                        old = cur[i][j]
                         cur[i][j] = Fraction(cur[i][j]) + rng.choice([1, -1, 2, 5, Fraction(1, 2)])
+                        if not self._exact([[cur[i][j]]]):      # huge level: copy another point's value instead
+                            cur[i][j] = old
+                            cur[i][j] = cur[rng.randrange(npt)][j]
+                            if cur[i][j] == old:
+                                cur[i][j] = rng.randint(0, 3)
                 elif what < 0.8:       # re-assign the weights
                     wt = [rng.choice(self.WTS) for _ in range(nobj)]
                 else:                  # flip a sign
                     j = rng.randrange(nobj)
                     wt = list(wt)
                     wt[j] = -Fraction(wt[j])
+            wt = self._safe_wt(cur, wt)
             steps.append({"fmat": canon.enc(cur), "wt": canon.enc(wt),
                           "order": rng.choice(["mask_first", "idx_first", "mask_only", "idx_only"])})
         return {"kind": "pareto_seq", "fdtype": "float64", "steps": steps}
 
     def _gen_pareto_perm(self, rng):
         pts, nobj = self._points(rng)
-        wt = [rng.choice(self.WTS) for _ in range(nobj)]
+        wt = self._safe_wt(pts, [rng.choice(self.WTS) for _ in range(nobj)])
         perm = list(range(len(pts)))
         rng.shuffle(perm)
         if rng.random() < 0.3:
@@ -347,7 +500,8 @@ class C19(Prop):
         case = {"kind": "dominates"}
         r = rng.random()
         if r < 0.25 and nobj:             # objective near-ties / large common level
-            level, e = rng.choice([(1, 30), (25000, 20), (2 ** 30, 1), (0, 40), (1, 40)])
+            level, e = rng.choice([(1, 30), (25000, 20), (2 ** 30, 1), (0, 40), (1, 40), (0, 60), (0, 600), (0, 1070),
+                                   (0, 600), (0, 1070)])
             o1 = [level + Fraction(v, 2 ** e) for v in o1]
             o2 = [level + Fraction(v, 2 ** e) for v in o2]
         elif r < 0.45:
@@ -362,10 +516,77 @@ class C19(Prop):
             case["cvform"] = "int"
         elif rng.random() < 0.3:
             case["cvform"] = rng.choice(["np64", "0d"])
+        r2 = rng.random()
+        if r2 < 0.16 and nobj >= 2:
+            # objectives on very different scales inside one vector: the vectors tie on the large objectives and
+            # differ (by one step, in one direction or both) on small ones -- their totals round to the same number
+            cols = [rng.choice(self.MIXED) for _ in range(nobj)]
+            cols[rng.randrange(nobj)] = rng.choice([self.MIXED[0], self.MIXED[-1], (-3 * 10 ** 15, Fraction(1, 2))])
+            o1 = [b + st * rng.randint(0, 2) for b, st in cols]
+            o2 = list(o1)
+            small = [j for j, (b, st) in enumerate(cols) if abs(b) < 2 ** 40] or [rng.randrange(nobj)]
+            for j in rng.sample(small, rng.randint(1, len(small))):
+                o2[j] = o1[j] + cols[j][1] * rng.choice([1, 1, 1, -1])
+            if rng.random() < 0.5:
+                o1, o2 = o2, o1
+            case.pop("odtype", None)
+        elif r2 < 0.22:
+            # many objectives, the vectors differ in the LAST one only (or nowhere)
+            nobj = rng.choice([9, 17, 33, 40])
+            o1 = [rng.randint(0, 3) for _ in range(nobj)]
+            o2 = list(o1)
+            o2[-1] += rng.choice([1, -1, 0])
+        if rng.random() < 0.2 and len(o1) >= 1:
+            case["oform"] = rng.choice(["strided", "rev", "row_of_F"])
         case.update({"obj1": canon.enc(o1), "cv1": canon.enc(c1), "obj2": canon.enc(o2), "cv2": canon.enc(c2)})
         return case
 
+    def _gen_pareto_dom(self, rng):
+        """feasible points, every objective minimised: the filter (weights -1) and the pairwise dominance predicate must
+        describe the same non-dominated set (Props/C19.filter_min_iff_not_dominated)"""
+        pts, nobj = self._points(rng)
+        pts = pts[:7]
+        return {"kind": "pareto_dom", "fmat": canon.enc(pts), "cv": canon.enc(rng.choice([0, 0, -1, Fraction(-1, 2)]))}
+
+    def _gen_dominates_seq(self, rng):
+        """a history on ONE pair of objective arrays: compared, edited in place, compared again (also with the
+        arguments exchanged) -- what a hill climber does with its leader / proposal buffers"""
+        nobj = rng.randint(1, 4)
+        o1 = [rng.randint(0, 3) for _ in range(nobj)]
+        o2 = [v + rng.choice([0, 0, 1, -1]) for v in o1]
+        feas = [c for c in self.CVS if Fraction(c) <= 0]
+        infe = [c for c in self.CVS if Fraction(c) > 0]
+        c1, c2 = rng.choice(feas), rng.choice(feas)
+        steps = []
+        for s in range(rng.randint(2, 5)):
+            if s:
+                what = rng.random()
+                if what < 0.45:
+                    j = rng.randrange(nobj)
+                    o1 = list(o1)
+                    o1[j] = o1[j] + rng.choice([1, -1, 2, -2])
+                elif what < 0.7:
+                    j = rng.randrange(nobj)
+                    o2 = list(o2)
+                    o2[j] = o2[j] + rng.choice([1, -1, 2, -2])
+                elif what < 0.85:
+                    c1 = rng.choice(feas if rng.random() < 0.6 else infe)
+                else:
+                    c2 = rng.choice(feas if rng.random() < 0.6 else infe)
+            steps.append({"obj1": canon.enc(o1), "cv1": canon.enc(c1), "obj2": canon.enc(o2), "cv2": canon.enc(c2),
+                          "swap": rng.random() < 0.3})
+        return {"kind": "dominates_seq", "steps": steps}
+
     def _line(self, rng, nobj):
+        line = self._line0(rng, nobj)
+        if rng.random() < 0.06:
+            # the whole preference vector very small / very large (L.L and 1/(L.L) still binary64 numbers):
+            # a power of two, so every distance is exactly that of the unscaled vector
+            m = Fraction(2) ** rng.choice([400, -400, 200, -300])
+            line = canon.enc([Fraction(v) * m for v in line])
+        return line
+
+    def _line0(self, rng, nobj):
         if rng.random() < 0.25:
             if rng.random() < 0.4:                   # all preference on one objective / on a subset, equal entries
                 c = rng.choice(self.LINES_ND)
@@ -387,6 +608,8 @@ class C19(Prop):
             form["mdtype"] = rng.choice(["int64", "int32"])
             if rng.random() < 0.3:
                 form["sdtype"] = "int64"
+        elif r < 0.4 and self._f32_ok(pts):
+            form["mdtype"] = "float32"
         lay = rng.random()
         if lay < 0.4:
             form["layout"] = rng.choice(["F", "F", "strided", "rev"])
@@ -408,13 +631,27 @@ class C19(Prop):
                 pts = moved
         return pts, nobj
 
+    def _sign(self, rng, pts, nobj):
+        """the vector that multiplies the front first (`objfn_minmax` / `vec_wt` / `wt`): signs, in a quarter of the
+        cases with unequal magnitudes (the min-max scaling removes any positive factor) or an ignored objective"""
+        sign = [rng.choice([1, -1]) for _ in range(nobj)]
+        if rng.random() < 0.25:
+            mag = [s * rng.choice(self.SIGN_MAG) for s in sign]
+            if rng.random() < 0.15:
+                mag[rng.randrange(nobj)] = 0
+            if self._products_exact(pts, mag):
+                sign = mag
+        return sign
+
     def _gen_dist(self, rng, kind="dist"):
         pts, nobj = self._front(rng)
-        sign = [rng.choice([1, -1]) for _ in range(nobj)]
-        case = {"kind": kind, "mat": canon.enc(pts), "sign": sign, "line": self._line(rng, nobj)}
+        sign = self._sign(rng, pts, nobj)
+        case = {"kind": kind, "mat": canon.enc(pts), "sign": canon.enc(sign), "line": self._line(rng, nobj)}
         if kind == "dist":
             case["variant"] = rng.choice(VARIANTS)
         case.update(self._dist_form(rng, pts))
+        if any(Fraction(v).denominator != 1 for v in sign):
+            case.pop("sdtype", None)
         if kind == "dist3":
             case.pop("call", None)
         if kind == "dist" and rng.random() < 0.12:
@@ -487,7 +724,13 @@ class C19(Prop):
                 what = rng.random()
                 if what < 0.6:
                     i, j = rng.randrange(npt), rng.randrange(nobj)
+                    old = pts[i][j]
                     pts[i][j] = pts[i][j] + rng.choice([1, -1, 2, 5, Fraction(1, 2)])
+                    if not self._exact([[pts[i][j]]]):
+                        pts[i][j] = old
+                        pts[i][j] = pts[rng.randrange(npt)][j]
+                        if pts[i][j] == old:
+                            pts[i][j] = Fraction(rng.randint(0, 3))
                 elif what < 0.8:
                     sign = [rng.choice([1, -1]) for _ in range(nobj)]
                 else:
@@ -496,7 +739,7 @@ class C19(Prop):
         return {"kind": "dist_seq", "steps": steps}
 
     def _gen_wsum(self, rng):
-        pts, nobj = self._points(rng)
+        pts, nobj = self._points(rng, mixed=False)
         fn = rng.choice(["dot", "dot", "sum1", "sum0", "sumall", "latent_sum", "latent_dot"])
         if any(Fraction(v).denominator > 2 ** 21 for r in pts for v in r):
             pts = [[Fraction(v).numerator % 7 for v in r] for r in pts]        # keep float sums exact
@@ -510,7 +753,44 @@ class C19(Prop):
             case["wt"] = canon.enc([rng.choice(self.WTS) for _ in range(nobj)])
         return case
 
+    def _assert_exact(self, case):
+        """generator self-check: the numbers handed to numpy are binary64 numbers, so that the model (exact rationals)
+        and the implementation see the same input; a case that fails the test is not run"""
+        mats = []
+        for key in ("fmat", "mat"):
+            if key in case:
+                mats.append(case[key])
+        for st in case.get("steps", []):
+            for key in ("fmat", "mat"):
+                if key in st:
+                    mats.append(st[key])
+            for key in ("obj1", "obj2"):
+                if key in st:
+                    mats.append([st[key]])
+        for key in ("obj1", "obj2", "vec"):
+            if key in case:
+                mats.append([case[key]])
+        if case["kind"] == "dist_pair":
+            mats.append(self._translated(case))
+        for m in mats:
+            if len(m) <= 64 and not self._exact(m):
+                return False
+        return True
+
     def generate(self, rng, n, tier):
+        out = []
+        for c in self._generate(rng, n, tier):
+            if self._assert_exact(c):
+                out.append(c)
+            else:
+                # never seen in 100 000 generated cases; such a case would compare the model on numbers the
+                # implementation never saw, so it is not run (and said so) instead of risking a false verdict
+                import sys
+                print(f"[C19] generator self-check: dropped a case with a value that is not a binary64 number: "
+                      f"{json.dumps(c)[:300]}", file=sys.stderr)
+        return out
+
+    def _generate(self, rng, n, tier):
         out = []
         nbig = 2 if tier == "quick" else max(4, n // 150)
         for i in range(nbig):
@@ -523,9 +803,13 @@ class C19(Prop):
                 out.append(self._gen_pareto_seq(rng))
             elif r < 0.42:
                 out.append(self._gen_pareto_perm(rng))
-            elif r < 0.60:
+            elif r < 0.58:
                 out.append(self._gen_dominates(rng))
-            elif r < 0.68:
+            elif r < 0.595:
+                out.append(self._gen_dominates_seq(rng))
+            elif r < 0.61:
+                out.append(self._gen_pareto_dom(rng))
+            elif r < 0.685:
                 out.append(self._gen_dist_pair(rng))
             elif r < 0.72:
                 out.append(self._gen_dist_zero(rng))
@@ -541,28 +825,75 @@ class C19(Prop):
 
     # ------------------------------------------------------------------ implementation
     @staticmethod
-    def _pareto_calls(pareto, fmat, wt, order, flag="py"):
+    def _pareto_calls(pareto, fmat, wt, order, flag="py", kw=None):
         """mask and index forms on the SAME array objects, in the requested order; `flag` = how the Boolean
-        `return_mask` is spelled (Python bool, numpy.bool_, 0/1)"""
+        `return_mask` is spelled (Python bool, numpy.bool_, 0/1); `kw` = keyword call forms (the NSGA-II wrapper
+        calls `is_pareto_efficient(pop_soln, wt = objfn_wt, return_mask = True)`)"""
         T, F = {"py": (True, False), "np": (numpy.bool_(True), numpy.bool_(False)), "int": (1, 0)}[flag]
         mask = idx = None
-        if order in ("mask_first", "mask_only"):
-            mask = pareto.is_pareto_efficient(fmat, wt, return_mask=T)
-            if order == "mask_first":
-                idx = pareto.is_pareto_efficient(fmat, wt, F)
+        fn = pareto.is_pareto_efficient
+        if kw == "wt":
+            call3 = lambda rm: fn(fmat, wt=wt, return_mask=rm)
+            call2 = lambda: fn(fmat, wt=wt)
+        elif kw == "all":
+            call3 = lambda rm: fn(fmat=fmat, wt=wt, return_mask=rm)
+            call2 = lambda: fn(wt=wt, fmat=fmat)
         else:
-            idx = pareto.is_pareto_efficient(fmat, wt, return_mask=F)
+            call3 = None
+        if call3 is not None:
+            if order in ("mask_first", "mask_only"):
+                mask = call3(T)
+                if order == "mask_first":
+                    idx = call3(F)
+            else:
+                idx = call3(F)
+                if order == "idx_first":
+                    mask = call2()
+            return mask, idx
+        if order in ("mask_first", "mask_only"):
+            mask = fn(fmat, wt, return_mask=T)
+            if order == "mask_first":
+                idx = fn(fmat, wt, F)
+        else:
+            idx = fn(fmat, wt, return_mask=F)
             if order == "idx_first":
-                mask = pareto.is_pareto_efficient(fmat, wt)          # return_mask defaults to True
+                mask = fn(fmat, wt)          # return_mask defaults to True
         return mask, idx
+
+    @staticmethod
+    def _forms(mask, idx, npt):
+        """what kind of arrays the two forms are: a Boolean vector with one entry per point / a vector of integers
+        (a 0/1 integer `mask` used as `fmat[mask]` would select points 0 and 1 instead of filtering)"""
+        bad = []
+        if mask is not None:
+            m = numpy.asarray(mask)
+            if m.dtype != numpy.bool_ or m.shape != (npt,):
+                bad.append(f"mask form is {m.dtype}{m.shape}, expected bool({npt},)")
+        if idx is not None:
+            a = numpy.asarray(idx)
+            if a.ndim != 1 or not (numpy.issubdtype(a.dtype, numpy.integer) or a.size == 0):
+                bad.append(f"index form is {a.dtype}{a.shape}, expected a vector of integers")
+        return bad
 
     def _impl_wt(self, case, wt=None):
         wt = case["wt"] if wt is None else wt
         if case.get("wdtype", "float64").startswith("int"):
-            return _vec(wt, case["wdtype"])
+            return self._wform(_vec(wt, case["wdtype"]), case.get("wform"))
         w = _vec(wt)
         if case.get("scale"):
             w = w * numpy.array([_f(s) for s in case["scale"]])
+        return self._wform(w, case.get("wform"))
+
+    @staticmethod
+    def _wform(w, form):
+        if form == "col":
+            return w.reshape(-1, 1)
+        if form == "row":
+            return w.reshape(1, -1)
+        if form == "strided":
+            big = numpy.full(2 * len(w) + 1, 55.0, dtype=w.dtype)
+            big[::2][:len(w)] = w
+            return big[::2][:len(w)]
         return w
 
     def _dist_call(self, mods, variant, mat, sign, line, call="pos"):
@@ -614,11 +945,12 @@ class C19(Prop):
         if k == "pareto_exh":
             return self._run_exh(pareto, case)
         if k == "pareto":
-            fmat = _arr(case["fmat"], case.get("fdtype", "float64"), case.get("layout", "C"))
+            fmat = _arr(case["fmat"], case.get("fdtype", "float64"), case.get("layout", "C"), ncol=len(case["wt"]))
             wt = self._impl_wt(case)
             f0, w0 = fmat.copy(), wt.copy()
-            mask, idx = self._pareto_calls(pareto, fmat, wt, case.get("order", "mask_first"), case.get("flag", "py"))
-            return {"mask": canon.enc(mask), "idx": canon.enc(idx),
+            mask, idx = self._pareto_calls(pareto, fmat, wt, case.get("order", "mask_first"), case.get("flag", "py"),
+                                           case.get("kw"))
+            return {"mask": canon.enc(mask), "idx": canon.enc(idx), "forms": self._forms(mask, idx, len(case["fmat"])),
                     "input_untouched": bool((f0 == fmat).all() and (w0 == wt).all())}
         if k == "pareto_perm":
             fmat = _arr(case["fmat"], case.get("fdtype", "float64"), case.get("layout", "C"))
@@ -656,11 +988,40 @@ class C19(Prop):
         if k == "dominates":
             od = case.get("odtype", "float64")
             o1, o2 = _vec(case["obj1"], od), _vec(case["obj2"], od)
+            of = case.get("oform")
+            if of == "row_of_F":
+                # the two vectors as rows of one Fortran-ordered objective matrix (`F[0]`, `F[1]` of a population)
+                Fm = numpy.asfortranarray(numpy.stack([o1, o2]))
+                o1, o2 = Fm[0], Fm[1]
+            elif of:
+                o1, o2 = self._wform(o1, "strided"), (o2[::-1].copy()[::-1] if of == "rev" else self._wform(o2, "strided"))
             form = case.get("cvform", "pyfloat")
             cv = {"pyfloat": lambda c: _f(c), "int": lambda c: int(Fraction(c)),
                   "np64": lambda c: numpy.float64(_f(c)), "0d": lambda c: numpy.array(_f(c))}[form]
+            a0, b0 = o1.copy(), o2.copy()
             r = addon.dominates(o1, cv(case["cv1"]), o2, cv(case["cv2"]))
-            return {"dom": bool(r)}
+            return {"dom": bool(r), "input_untouched": bool((a0 == o1).all() and (b0 == o2).all())}
+        if k == "pareto_dom":
+            F = _arr(case["fmat"])
+            n = len(F)
+            wt = -numpy.ones(F.shape[1])
+            mask = pareto.is_pareto_efficient(F, wt, return_mask=True)
+            cv = _f(case["cv"])
+            dom = [[bool(addon.dominates(F[j], cv, F[i], cv)) for i in range(n)] for j in range(n)]
+            return {"mask": canon.enc(mask), "dom": dom}
+        if k == "dominates_seq":
+            steps = case["steps"]
+            A, B = _vec(steps[0]["obj1"]).copy(), _vec(steps[0]["obj2"]).copy()
+            outs, untouched = [], True
+            for st in steps:
+                A[...] = _vec(st["obj1"])
+                B[...] = _vec(st["obj2"])
+                a0, b0 = A.copy(), B.copy()
+                c1, c2 = _f(st["cv1"]), _f(st["cv2"])
+                r = addon.dominates(B, c2, A, c1) if st.get("swap") else addon.dominates(A, c1, B, c2)
+                untouched = untouched and bool((a0 == A).all() and (b0 == B).all())
+                outs.append(bool(r))
+            return {"steps": outs, "input_untouched": untouched}
         if k in ("dist", "dist_pair", "dist3"):
             sign = _vec(case["sign"], case.get("sdtype", "float64"))
             line = _vec(case["line"])
@@ -736,6 +1097,12 @@ class C19(Prop):
         return {"op": "c19.spec_dist", "mat": mat, "sign": case["sign"], "line": case["line"], "d2": self._sq(d),
                 "rel": canon.enc(self.REL), "abs": canon.enc(self.ABS if abs_ is None else abs_)}
 
+    @staticmethod
+    def _close_req(d, d2):
+        """two result vectors of the implementation (distances, not squared) -> Pareto.Q.specCloseAll"""
+        fin = lambda v: [None if isinstance(canon.dec(x), str) or canon.dec(x) is None else x for x in v]
+        return {"op": "c19.spec_close", "d": fin(d), "d2": fin(d2), "rel": "1/1000000000", "abs": "1/1000000000"}
+
     # ------------------------------------------------------------------ model requests
     @staticmethod
     def _preq(fmat, wt, mask, idx):
@@ -757,11 +1124,15 @@ class C19(Prop):
             return [{"op": "c19.exh", **{f: case[f] for f in ("lv", "nobj", "npt", "start", "count", "wt")},
                      "masks": obs["masks"]}]
         if k == "pareto":
+            if obs.get("forms"):
+                return [{"op": "c19.pareto", "fmat": case["fmat"], "wt": case["wt"]}]
             return self._preq(case["fmat"], case["wt"], obs["mask"], obs["idx"])
         if k == "pareto_perm":
             fp = [case["fmat"][i] for i in case["perm"]]
             return (self._preq(case["fmat"], case["wt"], obs["mask"], obs["idx"]) +
-                    self._preq(fp, case["wt"], obs["maskp"], obs["idxp"]))
+                    self._preq(fp, case["wt"], obs["maskp"], obs["idxp"]) +
+                    [{"op": "c19.spec_same_vectors", "fmat": case["fmat"], "fmat2": fp, "wt": case["wt"],
+                      "mask": [bool(b) for b in obs["mask"]], "mask2": [bool(b) for b in obs["maskp"]]}])
         if k == "pareto_seq":
             out = []
             for st, o in zip(case["steps"], obs["steps"]):
@@ -771,6 +1142,14 @@ class C19(Prop):
         if k == "dominates":
             args = {x: case[x] for x in ("obj1", "cv1", "obj2", "cv2")}
             return [{"op": "c19.dominates", **args}, {"op": "c19.spec_dominates", **args, "claimed": obs["dom"]}]
+        if k == "pareto_dom":
+            return [{"op": "c19.pareto", "fmat": case["fmat"], "wt": [-1] * len(case["fmat"][0])}]
+        if k == "dominates_seq":
+            out = []
+            for st, d in zip(case["steps"], obs["steps"]):
+                args = self._dom_args(st)
+                out += [{"op": "c19.dominates", **args}, {"op": "c19.spec_dominates", **args, "claimed": d}]
+            return out
         if k == "dist":
             abs_ = self.ABS_ZERO if case.get("expect_zero") else self.ABS
             return [{"op": "c19.dist", "mat": case["mat"], "sign": case["sign"], "line": case["line"],
@@ -779,7 +1158,8 @@ class C19(Prop):
         if k == "dist3":
             return ([{"op": "c19.dist", "mat": case["mat"], "sign": case["sign"], "line": case["line"],
                       "guarded": True, "variant": v} for v in VARIANTS] +
-                    [self._spec_req(case, case["mat"], d) for d in obs["d3"]])
+                    [self._spec_req(case, case["mat"], d) for d in obs["d3"]] +
+                    [self._close_req(obs["d3"][0], d) for d in obs["d3"][1:]])
         if k == "dist_pair":
             mt = self._translated(case)
             return [{"op": "c19.dist", "mat": case["mat"], "sign": case["sign"], "line": case["line"],
@@ -787,7 +1167,8 @@ class C19(Prop):
                     {"op": "c19.dist", "mat": mt, "sign": case["sign"], "line": case["line"], "guarded": True,
                      "variant": case["variant"]},
                     self._spec_req(case, case["mat"], obs["d"]),
-                    self._spec_req(case, mt, obs["dt"])]
+                    self._spec_req(case, mt, obs["dt"]),
+                    self._close_req(obs["d"], obs["dt"])]
         if k == "dist_seq":
             out = []
             for st, d in zip(case["steps"], obs["steps"]):
@@ -803,6 +1184,23 @@ class C19(Prop):
             return [r]
         raise ValueError(k)
 
+    @staticmethod
+    def _dom_args(st):
+        """arguments of one step of a dominates history, in the order of the call that was made"""
+        if st.get("swap"):
+            return {"obj1": st["obj2"], "cv1": st["cv2"], "obj2": st["obj1"], "cv2": st["cv1"]}
+        return {x: st[x] for x in ("obj1", "cv1", "obj2", "cv2")}
+
+    @staticmethod
+    def _py_dominates(a):
+        """the second sentence of the property, written out in Python (cross-check of the Lean Spec)"""
+        o1 = [Fraction(v) for v in a["obj1"]]
+        o2 = [Fraction(v) for v in a["obj2"]]
+        c1, c2 = Fraction(a["cv1"]), Fraction(a["cv2"])
+        if c1 <= 0 and c2 <= 0:
+            return all(x <= y for x, y in zip(o1, o2)) and any(x < y for x, y in zip(o1, o2))
+        return c1 < c2
+
     # ------------------------------------------------------------------ judge
     def _judge_pareto(self, m, s, mask, idx, called=("mask", "idx")):
         corr = all((m[f] == v) for f, v in (("mask", mask), ("idx", idx)) if f in called)
@@ -810,6 +1208,9 @@ class C19(Prop):
 
     def judge(self, case, obs, answers):
         k = case["kind"]
+        if k == "pareto" and obs.get("forms"):
+            return {"corr": False, "spec": False, "nontrivial": len(case["fmat"]) >= 2,
+                    "detail": f"pareto impl={self._short(obs)} " + "; ".join(obs["forms"])}
         for a in answers:
             if "err" in a:
                 raise RuntimeError("driver error: " + a["err"])
@@ -824,9 +1225,15 @@ class C19(Prop):
                     "detail": f"pareto_exh {case['count']} sets from #{case['start']} ({case['npt']} points x {case['nobj']} "
                               f"objectives over 0..{case['lv'] - 1}, wt={case['wt']}): spec_false={len(bad)} "
                               f"mask_vs_index_disagreement={obs['idx_bad']}{why}"}
+        if k == "pareto" and obs.get("forms"):
+            # the results are not a Boolean mask / an integer index vector at all: nothing further to compare
+            return {"corr": False, "spec": False, "nontrivial": len(case["fmat"]) >= 2,
+                    "detail": f"pareto impl={self._short(obs)} " + "; ".join(obs["forms"])}
         if k == "pareto":
             corr, spec, why = self._judge_pareto(answers[0]["ok"], answers[1]["ok"], obs["mask"], obs["idx"])
-            spec = spec and obs["input_untouched"]
+            spec = spec and obs["input_untouched"] and not obs.get("forms")
+            if obs.get("forms"):
+                why += " " + "; ".join(obs["forms"])
             pts = [tuple(r) for r in case["fmat"]]
             nontriv = len(set(map(str, pts))) >= 2 and (not all(obs["mask"]))
             return {"corr": corr, "spec": spec, "nontrivial": nontriv,
@@ -840,6 +1247,10 @@ class C19(Prop):
             e0 = {wv(r) for r, b in zip(case["fmat"], obs["mask"]) if b}
             e1 = {wv(r) for r, b in zip(fp, obs["maskp"]) if b}
             same = e0 == e1
+            # Spec of "unaffected by the order of points": Pareto.Q.specSameVectors in Lean, cross-checked here
+            if bool(answers[4]["ok"]) != same:
+                raise RuntimeError(f"c19.spec_same_vectors ({answers[4]['ok']}) and the Python set comparison ({same}) "
+                                   f"disagree on {case}")
             m0, m1 = answers[0]["ok"], answers[2]["ok"]
             # model: one index per distinct efficient vector, so the number of efficient indices is order independent
             corr = c0 and c1 and len(m0["idx"]) == len(m1["idx"])
@@ -871,8 +1282,37 @@ class C19(Prop):
                 want = c1 < c2
             if want != s["want"]:
                 raise RuntimeError(f"c19.spec_dominates ({s}) and the Python definition ({want}) disagree on {case}")
-            return {"corr": corr, "spec": bool(s["ok"]), "nontrivial": o1 != o2,
-                    "detail": f"dominates model={m} impl={obs['dom']} definition={want}"}
+            return {"corr": corr and obs.get("input_untouched", True), "spec": bool(s["ok"]), "nontrivial": o1 != o2,
+                    "detail": f"dominates model={m} impl={obs['dom']} definition={want} "
+                              f"input_untouched={obs.get('input_untouched', True)}"}
+        if k == "pareto_dom":
+            m = answers[0]["ok"]
+            mask, dom, rows = obs["mask"], obs["dom"], case["fmat"]
+            n = len(rows)
+            bad = None
+            for i in range(n):
+                dominated = any(dom[j][i] for j in range(n))
+                if mask[i] and dominated:
+                    bad = f"point {i} is marked efficient but dominates(point {[j for j in range(n) if dom[j][i]][0]}, point {i}) is True"
+                if not mask[i] and not any(mask[j] and (dom[j][i] or rows[j] == rows[i]) for j in range(n)):
+                    bad = f"point {i} is unmarked but no marked point dominates or equals it"
+                if bad:
+                    break
+            return {"corr": m["mask"] == mask, "spec": bad is None, "nontrivial": n >= 2 and not all(mask),
+                    "detail": f"pareto_dom mask={mask} model={m['mask']} filter_vs_dominates={'agree' if bad is None else bad}"}
+        if k == "dominates_seq":
+            corr, spec, why = True, True, []
+            for i, (st, d) in enumerate(zip(case["steps"], obs["steps"])):
+                m, s = answers[2 * i]["ok"], answers[2 * i + 1]["ok"]
+                a = self._dom_args(st)
+                want = self._py_dominates(a)
+                if want != s["want"]:
+                    raise RuntimeError(f"c19.spec_dominates ({s}) and the Python definition ({want}) disagree on {a}")
+                corr, spec = corr and (m == d), spec and bool(s["ok"])
+                why.append(f"step {i}: dominates({a['obj1']}, {a['cv1']}, {a['obj2']}, {a['cv2']}) impl={d} definition={want}")
+            return {"corr": corr and obs["input_untouched"], "spec": spec,
+                    "nontrivial": any(st["obj1"] != st["obj2"] for st in case["steps"]),
+                    "detail": f"dominates_seq input_untouched={obs['input_untouched']} " + " | ".join(why)}
         if k == "dist":
             m = answers[0]["ok"]
             d = obs["d"]
@@ -895,8 +1335,11 @@ class C19(Prop):
                 why.append(f"{v}: {w}")
             finite = all(not isinstance(canon.dec(x), str) for d in ds for x in d)
             agree = finite and all(len(d) == len(ds[0]) for d in ds) and all(
-                canon.close(canon.dec(x), canon.dec(y), rel=1e-9, abs_=1e-9)
+                canon.close(canon.dec(x), canon.dec(y), rel=self.REL, abs_=self.REL)
                 for d in ds[1:] for x, y in zip(ds[0], d))
+            lean_agree = all(bool(a["ok"]) for a in answers[6:8])
+            if lean_agree != agree:
+                raise RuntimeError(f"c19.spec_close ({[a['ok'] for a in answers[6:8]]}) and canon.close ({agree}) disagree on {ds}")
             nontriv = len(case["mat"]) >= 2 and len(case["sign"]) >= 2
             return {"corr": corr and agree, "spec": spec, "nontrivial": nontriv,
                     "detail": f"dist3 impl={self._short(ds)} copies_agree={agree} " + " ".join(why)}
@@ -909,7 +1352,9 @@ class C19(Prop):
             s1, why1 = self._lean_spec(case, self._translated(case), dt, answers[3]["ok"], self.ABS)
             finite = all(not isinstance(canon.dec(x), str) for x in list(d) + list(dt))
             same = finite and len(d) == len(dt) and all(
-                canon.close(canon.dec(x), canon.dec(y), rel=1e-9, abs_=1e-9) for x, y in zip(d, dt))
+                canon.close(canon.dec(x), canon.dec(y), rel=self.REL, abs_=self.REL) for x, y in zip(d, dt))
+            if bool(answers[4]["ok"]) != same:
+                raise RuntimeError(f"c19.spec_close ({answers[4]['ok']}) and canon.close ({same}) disagree on {d} / {dt}")
             spec = s0 and s1 and same
             nontriv = len(case["mat"]) >= 2 and len(case["sign"]) >= 2 and any(case["shift"])
             return {"corr": corr, "spec": spec, "nontrivial": nontriv,
@@ -1015,6 +1460,16 @@ class C19(Prop):
             for s in range(0, total, size):
                 out.append({"kind": "pareto_exh", "lv": lv, "nobj": nobj, "npt": npt, "wt": wt,
                             "start": s, "count": min(size, total - s)})
+        # every front of 2 (quick) / 2 and 3 (thorough) points over {0,1,2}^2 through the three copies of the distance
+        # transformation (constant objectives, duplicates, points on the line all occur)
+        grid2 = list(itertools.product(range(3), repeat=2))
+        for pts in itertools.product(grid2, repeat=2):
+            confs = [([1, 2], [1, -1])] if tier == "quick" else [([1, 2], [1, -1]), ([1, 1], [1, 1]), ([1, 0], [-1, 1])]
+            for line, sign in confs:
+                out.append({"kind": "dist3", "mat": [list(p) for p in pts], "sign": sign, "line": line})
+        if tier != "quick":
+            for pts in itertools.product(grid2, repeat=3):
+                out.append({"kind": "dist3", "mat": [list(p) for p in pts], "sign": [1, -1], "line": [1, 2]})
         if tier != "quick":
             grid = list(itertools.product(range(3), repeat=2))
             cvs = [-1, 0, canon.enc(1e-9), 1, 2]
@@ -1079,11 +1534,12 @@ class C19(Prop):
                 yield {"kind": "pareto", "fmat": self._exh_set(case["lv"], case["nobj"], case["npt"], case["start"]),
                        "wt": case["wt"]}
             return
-        if k in ("pareto_seq", "dist_seq"):
+        if k in ("pareto_seq", "dist_seq", "dominates_seq"):
+            # only the END of a history is cut off: what remains still contains everything that happened before the
+            # failing step, so the reported case does not depend on what this process evaluated earlier
             st = case["steps"]
-            for i in range(len(st)):
-                if len(st) > 1:
-                    yield dict(case, steps=st[:i] + st[i + 1:])
+            for m in range(1, len(st)):
+                yield dict(case, steps=st[:m])
             return
         if k == "pareto_perm":
             n = len(case["fmat"])
@@ -1092,7 +1548,7 @@ class C19(Prop):
                     perm = [p - (p > i) for p in case["perm"] if p != i]
                     yield dict(case, fmat=case["fmat"][:i] + case["fmat"][i + 1:], perm=perm)
             return
-        key = {"pareto": "fmat", "dist": "mat", "dist_pair": "mat", "dist3": "mat"}.get(k)
+        key = {"pareto": "fmat", "dist": "mat", "dist_pair": "mat", "dist3": "mat", "pareto_dom": "fmat"}.get(k)
         if key:
             rows = case[key]
             if len(rows) > 40:
@@ -1106,7 +1562,8 @@ class C19(Prop):
                     c = dict(case)
                     c[key] = rows[:i] + rows[i + 1:]
                     yield c
-            for opt in ("layout", "fdtype", "mdtype", "call", "scale", "order", "sdtype", "wdtype", "flag"):
+            for opt in ("layout", "fdtype", "mdtype", "call", "scale", "order", "sdtype", "wdtype", "flag", "kw", "wform",
+                        "oform", "cvform", "odtype"):
                 if opt in case:
                     c = dict(case)
                     del c[opt]
@@ -1318,9 +1775,121 @@ class C19(Prop):
         def latent_sum_nokeep(decnvec, latentvec, **kw):
             return numpy.array([latentvec[:-1].sum()]) if len(latentvec) > 1 else latentvec.sum(0, keepdims=True)
 
+        # ---- round 4
+        def dom_sum_shortcut(o1, c1, o2, c2):
+            # "once nowhere worse, better somewhere exactly when the total is smaller": true over the reals only
+            if c1 <= 0.0 and c2 <= 0.0:
+                return bool(numpy.all(o1 <= o2)) and bool(numpy.sum(o1) < numpy.sum(o2))
+            return c1 < c2
+
+        def dom_first_block(o1, c1, o2, c2):
+            # only the first 8 objectives are compared ("vectorised block")
+            return orig_dom(o1[:8], c1, o2[:8], c2)
+
+        dom_memo = {}
+
+        def dom_memo_by_identity(o1, c1, o2, c2):
+            key = (id(o1), id(o2), float(c1), float(c2))
+            if key not in dom_memo:
+                dom_memo[key] = orig_dom(o1, c1, o2, c2)
+            return dom_memo[key]
+
+        def dom_sorts_in_place(o1, c1, o2, c2):
+            r = orig_dom(o1, c1, o2, c2)
+            o1.sort()                                     # leaves the caller's objective vector reordered
+            return r
+
+        def presort_filter(key):
+            def flt(fmat, wt, return_mask=True):
+                # points visited by decreasing `key`; a pivot only filters the points after it, never re-tested
+                f = fmat * (wt.flatten()[None, :])
+                npt = f.shape[0]
+                order = numpy.argsort(-key(f), kind="stable")
+                f = f[order]
+                eff = order
+                pt = 0
+                while pt < len(f):
+                    m = numpy.ones(len(f), dtype=bool)
+                    m[pt + 1:] = numpy.any(f[pt + 1:] > f[pt], axis=1)
+                    eff, f = eff[m], f[m]
+                    pt += 1
+                if return_mask:
+                    out = numpy.zeros(npt, dtype=bool)
+                    out[eff] = True
+                    return out
+                return numpy.sort(eff)
+            return flt
+
+        def wt_not_flattened_filter(fmat, wt, return_mask=True):
+            if wt.ndim == 2 and wt.shape[0] == fmat.shape[0] and wt.shape[1] == 1:
+                # `fmat * wt` without flatten: a column of weights scales the POINTS of a square matrix
+                return orig_filter(fmat * wt, numpy.ones(fmat.shape[1]), return_mask)
+            return orig_filter(fmat, wt, return_mask)
+
+        def renamed_kw_filter(fmat, weights=None, return_mask=True, **kw):
+            if weights is None:
+                raise TypeError("is_pareto_efficient() missing required argument 'weights'")
+            return orig_filter(fmat, weights, return_mask)
+
+        def int_mask_filter(fmat, wt, return_mask=True):
+            r = orig_filter(fmat, wt, return_mask)
+            return r.astype(numpy.uint8) if return_mask else r
+
+        def empty_crash_filter(fmat, wt, return_mask=True):
+            _ = fmat[0]                                   # IndexError on an empty point set
+            return orig_filter(fmat, wt, return_mask)
+
+        def dist_weights_after_scaling(mat, obj_wt, vec_wt, **kw):
+            # only the signs orient the objectives; the magnitudes are applied to the scaled front
+            m = _guarded_scale(mat * numpy.sign(vec_wt)) * numpy.abs(vec_wt)
+            return _project(m, obj_wt)
+
+        def dist_float32_preference(mat, objfn_wt, wt, **kw):
+            with numpy.errstate(all="ignore"):
+                return orig_fn(mat, objfn_wt.astype(numpy.float32).astype(float), wt)
+
+        def dist_asarray_in_place(mat, objfn_wt, wt, **kw):
+            # `asarray` copies every input except a float64 array: the caller's front is overwritten
+            m = numpy.asarray(mat, dtype=float)
+            m *= wt
+            m -= m.min(0)
+            return orig_fn(m, objfn_wt, numpy.ones(m.shape[1]))
+
+        # ---- the repair of D190 (c276d45e) undone, one copy at a time: 1/(v.v) formed on the vector as given
+        def prerepair_outer(mat, obj_wt, vec_wt, **kw):
+            with numpy.errstate(all="ignore"):
+                return _project(_guarded_scale(mat * vec_wt), obj_wt)
+
+        def prerepair_transfn(mat, objfn_wt, wt, **kw):
+            with numpy.errstate(all="ignore"):
+                return _project(_guarded_scale(mat * wt), objfn_wt)
+
+        def prerepair_core(ndptmat, objfn_minmax, objfn_pseudoweight, **kw):
+            assert numpy.all(objfn_pseudoweight >= 0.0)
+            assert numpy.any(objfn_pseudoweight > 0.0)
+            assert objfn_pseudoweight.dot(objfn_pseudoweight) > 0.0
+            with numpy.errstate(all="ignore"):
+                return _project(_guarded_scale(ndptmat * objfn_minmax), objfn_pseudoweight)
+
         F, D = "is_pareto_efficient", "dominates"
         T = "trans_ndpt_to_vec_dist"
         return [
+            ("dist_core_preference_not_normalised", lambda: patch(ctrans, "trans_ndpt_pseudo_dist", prerepair_core)),
+            ("dist_prob_preference_not_normalised", lambda: patch(ptrans, T, prerepair_outer)),
+            ("dist_transfn_preference_not_normalised", lambda: patch(transfn, T, prerepair_transfn)),
+            ("dominates_sum_shortcut", lambda: patch(addon, D, dom_sum_shortcut)),
+            ("dominates_first_8_objectives", lambda: patch(addon, D, dom_first_block)),
+            ("dominates_memo_by_identity", lambda: patch(addon, D, dom_memo_by_identity)),
+            ("dominates_sorts_argument_in_place", lambda: patch(addon, D, dom_sorts_in_place)),
+            ("filter_presort_first_objective", lambda: patch(pareto, F, presort_filter(lambda f: f[:, 0]))),
+            ("filter_presort_by_sum", lambda: patch(pareto, F, presort_filter(lambda f: f.sum(1)))),
+            ("filter_weights_not_flattened", lambda: patch(pareto, F, wt_not_flattened_filter)),
+            ("filter_mask_as_uint8", lambda: patch(pareto, F, int_mask_filter)),
+            ("filter_keyword_renamed", lambda: patch(pareto, F, renamed_kw_filter)),
+            ("filter_crashes_on_empty_set", lambda: patch(pareto, F, empty_crash_filter)),
+            ("dist_weight_magnitudes_after_scaling", lambda: patch(ptrans, T, dist_weights_after_scaling)),
+            ("dist_float32_preference", lambda: patch(transfn, T, dist_float32_preference)),
+            ("dist_asarray_in_place", lambda: patch(transfn, T, dist_asarray_in_place)),
             ("dist_translation_after_scaling", lambda: patch(ptrans, T, dist_scale_then_shift)),
             ("dist_projection_on_wrong_vector", lambda: patch(transfn, T, dist_wrong_vector)),
             ("dist_guard_dropped", lambda: patch(ctrans, "trans_ndpt_pseudo_dist", dist_guard_dropped)),
